@@ -25,11 +25,15 @@ class KeyRef:
 
 class RefKeyboard:
     def __init__(self, keys: Dict[str, Tuple[int, int]], active_high: bool, press: int, release: int,
-                 delay: int, interval: int, repeat_enabled: bool = True, init_strobe=None) -> None:
+                 delay: int, interval: int, repeat_enabled: bool = True, init_strobe=None,
+                 release_restarts: bool = False) -> None:
         self.keys = {k: KeyRef(c, r) for k, (c, r) in keys.items()}
         self.active_high = active_high
         self.press_th, self.release_th, self.delay, self.interval = press, release, delay, interval
         self.repeat_enabled = repeat_enabled
+        # The statement fixes the release interval but not its origin when a key that already went unseen (column no
+        # longer strobed) is then physically released: the count of unseen ticks may continue or restart there.
+        self.release_restarts = release_restarts
         self.kol = 0x00 if active_high else 0xFF
         self.koh = 0x00 if active_high else 0x0F
         if init_strobe is not None:
@@ -53,6 +57,8 @@ class RefKeyboard:
         if s.held:
             s.held = False
             s.released_for = 0
+            if self.release_restarts:
+                s.ns = 0
 
     def tick(self) -> List[Tuple[int, bool]]:
         ev: List[Tuple[int, bool]] = []
